@@ -95,6 +95,37 @@ CLAIMS.update({
         note="Zero glycans (single empty file): no output file is written; accepted as 'nothing to list' (C17_empty_writes_nothing documents it). An existing -o file triggers an interactive prompt: not exercised. " + NOTE, ref="6 C17"),
 })
 
+CLAIMS.update({
+    "C04": dict(
+        technique="Lean 4 table theorems (kernel evaluation over the regenerated functional_groups table) + exhaustive single modifications against a hand-written Spec fragment table (RDKit molzip)",
+        text="C04_fg_fragments_wellformed, C04_tables_consistent, C04_fragments_with_other_labels are decided by the kernel over the complete regenerated "
+             "tables. Thorough runs every library sugar x every free position x every functional-group token (54k conversions); for ~95 tokens the expected "
+             "molecule is built from a hand-written fragment table that says what the token stands for and whether the O/N carries it or is replaced; "
+             "for all tokens the sugar skeleton must stay a stereo-substructure; sets of 2-4 modifications are written in all orders.",
+        note="partial: the reactor's token dispatch (react / set_fg / assemble_chains) is not yet transcribed into the Model; two open known-finding families "
+             "(O replaced instead of carrying the group for 33 tokens; positional groups on amine positions). " + NOTE, ref="6 C04"),
+    "C08": dict(
+        technique="Lean 4 table theorems by kernel evaluation over the complete regenerated monosaccharide tables + exhaustive library sweep judged with RDKit",
+        text="C08_anomers_one_mark_pyranose/furanose: for every code whose A_/B_ rows are written in the same atom order (all but PSE, LEG, ACI, THRE - listed by the "
+             "theorem) the rows are equal modulo stereo marks and differ in exactly one mark; C08_plain_rows_*, C08_tables_wellformed. The sweep covers every code x "
+             "ring form x anomer x series: one anomeric centre between a/b/undefined, ring-opening reduction = alditol entry, opposite series = mirror image, "
+             "distinct molecules, ring size, class formula (hand-written table for the common classes).",
+        note="partial: that the differing mark sits on the anomeric carbon and the alditol / mirror / distinctness clauses are decided by the RDKit sweep, not yet by "
+             "a Lean isomorphism checker; class formulas cover 13 classes, other codes only get the structural clauses. " + NOTE, ref="6 C08"),
+    "C14": dict(
+        technique="Lean 4 theorems on the open-form text rewrites + exhaustive prefix/suffix sweep against RDKit graph operations that define each transformation",
+        text="C14_open_rows_shape (kernel, all open rows), C14_onic_text, C14_aric_text are proved. Every library sugar x {-ol, -onic, -aric, A, n d, N, n e, x,y-Anhydro} "
+             "x every applicable position (thorough: all pairs) and chain-length suffixes are compared with the Spec operation applied to the parent molecule "
+             "(stereo-preserving, positions by chemistry-level numbering).",
+        note="partial: resize and anhydro are not yet in the Model; 45 open known findings (anhydro bridges whose bicyclic product the carbon numbering cannot handle "
+             "raise; the uronic walk on muramic acid). " + NOTE, ref="6 C14"),
+    "C16": dict(
+        technique="Lean 4 theorems (node count of the walked forest = size, structural bounds) + summary/count/save_dot against the written tree and RDKit",
+        text="C16_monomers is proved for every forest; summary() is compared with the written tree and with RDKit on get_smiles, count() with the Spec count for "
+             "single-residue queries in all modes, self- and sub-chain queries must match at least once, monotonicity basic >= some >= every, save_dot parsed back.",
+        note="partial: count's Spec (countSpec over DiGraphMatcher) is executable only; one open known finding (every > some for differently spelled residues). " + NOTE, ref="6 C16"),
+})
+
 PENDING = {}
 
 
